@@ -3,6 +3,7 @@
 use vstd::prelude::*;
 use std::io::Read;
 //@include _prelude.rs
+//@alloc_budget
 
 verus! {
 //@include _panic.rs
